@@ -297,6 +297,39 @@ class Desugar(ast.NodeTransformer):
             out.extend(r if isinstance(r, list) else [r])
         return out
 
+    def _hoist_inner_walrus(self, node: ast.stmt, value: ast.expr):
+        """`x = (h := f()).attr`: the one walrus of the statement, evaluated unconditionally and before anything else that has
+        an effect, becomes its own assignment in front"""
+        ws = [x for x in ast.walk(value) if isinstance(x, ast.NamedExpr)]
+        if len(ws) != 1 or not isinstance(ws[0].target, ast.Name):
+            return None
+        w = ws[0]
+        inner = {id(x) for x in ast.walk(w)}
+        for x in ast.walk(value):
+            if id(x) in inner:
+                continue
+            if isinstance(x, (ast.BoolOp, ast.IfExp, ast.Lambda, ast.ListComp, ast.SetComp, ast.DictComp, ast.GeneratorExp)) and any(y is w for y in ast.walk(x)):
+                return None
+            if isinstance(x, (ast.Call, ast.Await, ast.Yield, ast.YieldFrom)) and not any(y is w for y in ast.walk(x)):
+                return None          # another effect in the statement: order could matter
+            if isinstance(x, ast.Call) and any(y is w for y in ast.walk(x)):
+                # the walrus is an argument / receiver of a call: everything evaluated before it must be effect free
+                for a in [x.func] + list(x.args):
+                    if any(y is w for y in ast.walk(a)):
+                        break
+                    if any(isinstance(y, ast.Call) for y in ast.walk(a)):
+                        return None
+        asg = ast.copy_location(ast.Assign(targets=[ast.Name(id=w.target.id, ctx=ast.Store())], value=w.value), node)
+        ast.fix_missing_locations(asg)
+
+        class Rep(ast.NodeTransformer):
+            def visit_NamedExpr(self, n):
+                if n is w:
+                    return ast.copy_location(ast.Name(id=w.target.id, ctx=ast.Load()), n)
+                return self.generic_visit(n)
+        self.count["walrus"] += 1
+        return asg, Rep().visit(value)
+
     def visit_Assign(self, node: ast.Assign):
         if self.func_stack and any(isinstance(x, ast.NamedExpr) for x in ast.walk(node.value)):
             h = self._hoist_inner_walrus(node, node.value)
